@@ -23,6 +23,61 @@ use crate::{StIdx, itemset::Itemset, stategraph::StateGraph};
 //   Measuring and extending LR(1) parser generation
 //     Xin Chen, PhD thesis, University of Hawaii, 2009
 
+/// Verification hook (only with `--cfg grmtools_verif`): what [pager_stategraph] iterated over and
+/// what it had built just before `gc` was called. Nothing about the algorithm depends on it.
+#[cfg(grmtools_verif)]
+#[doc(hidden)]
+#[derive(Clone, Debug, Default)]
+pub struct PagerTrace {
+    /// One entry per iteration of the main loop: `state_i`, the keys `(pidx, dot)` of
+    /// `core_states[state_i]` and of the freshly closed state in the order their `keys()` yield them,
+    /// and the symbols pushed onto `new_states` in order (`2 * tidx` for a token, `2 * ridx + 1`
+    /// for a rule).
+    pub iters: Vec<(usize, Vec<(usize, usize)>, Vec<(usize, usize)>, Vec<usize>)>,
+    /// `core_states` just before `gc`: per state its items `(pidx, dot, set bits of the context)`.
+    pub core_states: Vec<Vec<(usize, usize, Vec<usize>)>>,
+    /// `closed_states` just before `gc`.
+    pub closed_states: Vec<Vec<(usize, usize, Vec<usize>)>>,
+    /// `edges` just before `gc`: per state `(symbol, target)`, symbols encoded as in `iters`.
+    pub edges: Vec<Vec<(usize, usize)>>,
+}
+
+#[cfg(grmtools_verif)]
+thread_local! {
+    static PAGER_TRACE: std::cell::RefCell<PagerTrace> = std::cell::RefCell::new(PagerTrace::default());
+}
+
+/// Return the trace of the last call of `pager_stategraph` on this thread and clear it.
+#[cfg(grmtools_verif)]
+#[doc(hidden)]
+pub fn take_pager_trace() -> PagerTrace {
+    PAGER_TRACE.with(|t| std::mem::take(&mut *t.borrow_mut()))
+}
+
+#[cfg(grmtools_verif)]
+fn verif_sym<StorageT: PrimInt + Unsigned>(sym: &Symbol<StorageT>) -> usize {
+    match *sym {
+        Symbol::Token(tidx) => 2 * usize::from(tidx),
+        Symbol::Rule(ridx) => 2 * usize::from(ridx) + 1,
+    }
+}
+
+#[cfg(grmtools_verif)]
+fn verif_items<StorageT: Hash + PrimInt + Unsigned>(
+    is: &Itemset<StorageT>,
+) -> Vec<(usize, usize, Vec<usize>)> {
+    is.items
+        .iter()
+        .map(|(&(pidx, dot), ctx)| {
+            (
+                usize::from(pidx),
+                usize::from(dot),
+                ctx.iter_set_bits(..).collect(),
+            )
+        })
+        .collect()
+}
+
 impl<StorageT: Hash + PrimInt + Unsigned> Itemset<StorageT> {
     /// Return true if `other` is weakly compatible with `self`.
     fn weakly_compatible(&self, other: &Self) -> bool {
@@ -121,6 +176,9 @@ where
 {
     // This function can be seen as a modified version of items() from Chen's dissertation.
 
+    #[cfg(grmtools_verif)]
+    PAGER_TRACE.with(|t| *t.borrow_mut() = PagerTrace::default());
+
     let firsts = grm.firsts();
     // closed_states and core_states are both equally sized vectors of states. Core states are
     // smaller, and used for the weakly compatible checks, but we ultimately need to return
@@ -178,6 +236,23 @@ where
         {
             closed_states[state_i] = Some(core_states[state_i].close(grm, &firsts));
             let cl_state = &closed_states[state_i].as_ref().unwrap();
+            #[cfg(grmtools_verif)]
+            PAGER_TRACE.with(|t| {
+                t.borrow_mut().iters.push((
+                    state_i,
+                    core_states[state_i]
+                        .items
+                        .keys()
+                        .map(|&(pidx, dot)| (usize::from(pidx), usize::from(dot)))
+                        .collect(),
+                    cl_state
+                        .items
+                        .keys()
+                        .map(|&(pidx, dot)| (usize::from(pidx), usize::from(dot)))
+                        .collect(),
+                    Vec::new(),
+                ))
+            });
             seen_rules.set_all(false);
             seen_tokens.set_all(false);
             for &(pidx, dot) in cl_state.items.keys() {
@@ -201,6 +276,15 @@ where
                     }
                 }
                 let nstate = cl_state.goto(grm, &sym);
+                #[cfg(grmtools_verif)]
+                PAGER_TRACE.with(|t| {
+                    t.borrow_mut()
+                        .iters
+                        .last_mut()
+                        .unwrap()
+                        .3
+                        .push(verif_sym(&sym))
+                });
                 new_states.push((sym, nstate));
             }
         }
@@ -286,6 +370,23 @@ where
     // 100 runs, 24 or 25 states will be created instead of 23). We thus need to weed out
     // unreachable states and update edges accordingly.
     debug_assert_eq!(core_states.len(), closed_states.len());
+    #[cfg(grmtools_verif)]
+    PAGER_TRACE.with(|t| {
+        let mut t = t.borrow_mut();
+        t.core_states = core_states.iter().map(verif_items).collect();
+        t.closed_states = closed_states
+            .iter()
+            .map(|x| verif_items(x.as_ref().unwrap()))
+            .collect();
+        t.edges = edges
+            .iter()
+            .map(|x| {
+                x.iter()
+                    .map(|(k, v)| (verif_sym(k), usize::from(*v)))
+                    .collect()
+            })
+            .collect();
+    });
     let (gc_states, gc_edges) = gc(
         core_states
             .drain(..)
